@@ -13,6 +13,12 @@ using verif_atomic = ::vs::Atomic<T>;
 using verif_atomic_flag         = ::vs::AtomicFlag;
 using verif_mutex               = ::vs::Mutex;
 using verif_condition_variable  = ::vs::ConditionVariable;
+using verif_condition_variable_any = ::vs::ConditionVariableAny;
+using verif_recursive_mutex       = ::vs::RecursiveMutex;
+using verif_timed_mutex           = ::vs::TimedMutex;
+using verif_recursive_timed_mutex = ::vs::RecursiveMutex;
+using verif_shared_mutex          = ::vs::SharedMutex;
+using verif_shared_timed_mutex    = ::vs::SharedMutex;
 using verif_thread              = ::vs::Thread;
 template <class T>
 using verif_promise = ::vs::Promise<T>;
@@ -29,6 +35,12 @@ using verif_steady_clock = ::vs::SteadyClock;
 #define atomic_flag verif_atomic_flag
 #define mutex verif_mutex
 #define condition_variable verif_condition_variable
+#define condition_variable_any verif_condition_variable_any
+#define recursive_mutex verif_recursive_mutex
+#define timed_mutex verif_timed_mutex
+#define recursive_timed_mutex verif_recursive_timed_mutex
+#define shared_mutex verif_shared_mutex
+#define shared_timed_mutex verif_shared_timed_mutex
 #define thread verif_thread
 #define this_thread verif_this_thread
 #define promise verif_promise
